@@ -23,8 +23,8 @@ template <> inline const char* tname<double> () { return "double"; }
 
 // tolerance constant for reported points whose parameter t is not exactly
 // representable: |got_j - P_j| <= PT_TOL * eps * (|pos_j| + |t*dir_j|).
-// Calibration (pristine tree, > 1e8 cases, float and double): worst ratio 1.0
-// on the wide lattice, 1.5 on the float stress inputs.
+// Calibration (pristine tree, 8e7 wide-lattice + 2.4e7 stress cases per run, float
+// and double): worst ratio 0.76 on the wide lattice, 1.60 on the stress inputs.
 static constexpr double PT_TOL = 16.0;
 
 // ------------------------------------------------------------------ lattice case
@@ -33,6 +33,7 @@ struct LatCase
 {
     int lo[3], hi[3], p[3], d[3];
     int S;
+    int negzero = 0; // bit j set: a zero direction component j is passed as -0.0 (same line; the oracle does not care)
 };
 
 struct LatTruth
@@ -128,7 +129,9 @@ lat_json (const LatCase& k)
 {
     double s = 1.0 / k.S, lo[3], hi[3], p[3], d[3];
     for (int j = 0; j < 3; ++j) { lo[j] = k.lo[j] * s; hi[j] = k.hi[j] * s; p[j] = k.p[j] * s; d[j] = k.d[j]; }
-    return Obj ().arr ("box_min", lo, 3).arr ("box_max", hi, 3).arr ("pos", p, 3).arr ("dir", d, 3).str ();
+    for (int j = 0; j < 3; ++j)
+        if (k.d[j] == 0 && ((k.negzero >> j) & 1)) d[j] = -0.0;
+    return Obj ().arr ("box_min", lo, 3).arr ("box_max", hi, 3).arr ("pos", p, 3).arr ("dir", d, 3).kv ("negzero_mask", k.negzero).str ();
 }
 
 inline bool pow2 (int64_t a) { return (a & (a - 1)) == 0; }
@@ -237,6 +240,9 @@ lat_check (Ctx& c, uint64_t idx, const LatCase& k, Acc& A)
     Line3<T>     ln;
     ln.pos = Vec3<T> (k.p[0] * s, k.p[1] * s, k.p[2] * s);
     ln.dir = Vec3<T> (T (k.d[0]), T (k.d[1]), T (k.d[2]));
+    if (k.negzero)
+        for (int j = 0; j < 3; ++j)
+            if (k.d[j] == 0 && ((k.negzero >> j) & 1)) ln.dir[j] = -T (0);
     Got<T> g = run_lib (box, ln);
 
     bool bad = (g.r3 != t.ray_hit) | (g.r2 != t.ray_hit) | (g.rl != t.line_hit);
